@@ -212,6 +212,16 @@ func (p *Primary) currentWAL() *wal.WAL {
 	return p.wal
 }
 
+// lastAckForStart is the acknowledgement cursor of a session that asks for the
+// log from startSequence on: the entry numbered startSequence itself is the
+// first one the replica does not have yet.
+func lastAckForStart(startSequence uint64) uint64 {
+	if startSequence == 0 {
+		return 0
+	}
+	return startSequence - 1
+}
+
 // StreamWAL implements WALReplicationServiceServer.StreamWAL
 func (p *Primary) StreamWAL(
 	req *proto.WALStreamRequest,
@@ -237,7 +247,7 @@ func (p *Primary) StreamWAL(
 		ID:              sessionID,
 		StartSequence:   req.StartSequence,
 		Stream:          stream,
-		LastAckSequence: req.StartSequence,
+		LastAckSequence: lastAckForStart(req.StartSequence),
 		SupportedCodecs: []proto.CompressionCodec{proto.CompressionCodec_NONE},
 		Connected:       true,
 		Active:          true,
@@ -467,7 +477,7 @@ func (p *Primary) broadcastToReplicas(response *proto.WALStreamResponse) {
 
 		// Check if this session has requested entries from a higher sequence
 		if len(response.Entries) > 0 &&
-			response.Entries[0].SequenceNumber <= session.StartSequence {
+			response.Entries[0].SequenceNumber < session.StartSequence {
 			continue
 		}
 
